@@ -54,8 +54,11 @@ def key_blobs():
 
 
 KEYS = key_blobs()
+# unknown names that only *resemble* the two flagged names (prefix / suffix / infix variants) must get flags 0
+LOOKALIKES = ["rsa-sha2-256@ssh.com", "rsa-sha2-512-cert-v00@openssh.com", "rsa-sha2-2560", "rsa-sha2-51",
+              "x-rsa-sha2-512", "RSA-SHA2-256", "rsa-sha2-256 "]
 ALGOS = ([None] + sorted(Transport._key_info) +
-         ["rsa-sha2-384", "", "hmac-sha2-256"])
+         ["rsa-sha2-384", "", "hmac-sha2-256"] + LOOKALIKES)
 DATA = [("empty", b""), ("1-byte", core.filler(1, 451)), ("300-bytes", core.filler(300, 452))]
 SIGS = [("37-bytes", R.enc_string(b"rsa-sha2-256") + core.filler(17, 453)), ("empty", b"")]
 Q_TYPES = [14, 5, 0, 6, 12, 13, 15, 255]
